@@ -2,26 +2,32 @@
 import os
 import numpy as np
 from vf.gen import models, recipes, data as gdata
-from vf.oracle import interp, decode
+from vf.oracle import interp, decode, localreplay
 from vf.props import common, c01
 
 LEVEL = 'exploration'
-K_STEPS = 16.0
-ALPHA = 0.05      # 8-bit weights
-ALPHA_W4 = 1.0    # 4-bit weights: weight rounding alone legitimately reaches 0.5*A on small graphs (measured)
+K_STEPS = 8.0
+ALPHA = 0.02      # trigger only: an output beyond it is examined, not condemned
+ALPHA_W4 = 0.02   # 4-bit weights: same trigger; weight rounding is accounted for by the decomposition (dequantized constants) and the probe
 RULE = ('generated float models of depth <= 6 over the coverage-table operators x one static-range config for the whole model (8/16-bit '
         'activations, 4/8-bit weights, symmetric/asymmetric activations, per-tensor/per-channel weights; ".*"/"*" rule) x one random '
-        'calibration input x; the model is calibrated on x alone and both models are run on x.  Oracle: every dequantized output finite and '
-        f'|deq(q) - f| <= {K_STEPS:g} output steps + alpha * A (alpha = {ALPHA:g} for 8-bit weights, {ALPHA_W4:g} for 4-bit weights), A = max '
-        '|activation| of the float run; additionally an output whose float values spread over more than max(16 steps, 0.1 A) must not be '
-        'constant.  An output beyond that bound is judged only if it is also beyond bound + 2 * delta, delta = the deviation the FLOAT model itself shows when noise of one quantization step (from its own ranges) is added to every tensor and constant (conditioning probe, 6 trials).  The first operator whose output leaves 25% of its own magnitude while its inputs are inside 5% is reported.  A model is admitted only if '
-        'every float activation has non-zero range on x.  A unit is one (model, config, x); distinct by digest; non-trivial iff the model '
-        'has >=2 operators and every output is integer-typed')
+        'calibration input x; the model is calibrated on x alone and both models are run on x.  Oracle, in two stages.  (1) Trigger: every '
+        f'dequantized output must be finite; an output with |deq(q) - f| > {K_STEPS:g} output steps + {ALPHA:g} * A (A = max |activation| of the '
+        'float run), or constant while the float output spreads over more than max(16 steps, 0.1 A, that bound), is examined.  (2) Verdict '
+        'on an examined output: it is a violation unless the deviation is rounding carried by the float network itself, shown either '
+        '(a) deterministically by the local-replay decomposition (vf/oracle/localreplay.py): every operator of the observed quantized '
+        'execution agrees, within the measured tolerance of its LiteRT kernel (<= 2 steps for 8-bit kernels), with a single-operator float '
+        'replay on the dequantized values it actually read, and every quantized tensor covers the float range of that tensor with a step at '
+        'most 4x the ideal one (spec-dictated parameters excepted); or (b) by the conditioning probe: the deviation is below bound + '
+        f'{4:g} * delta, delta = what the FLOAT model shows when noise of one quantization step (from its own ranges; fixed kernel ranges '
+        'for softmax/logistic/tanh) is added to every tensor and constant (8 trials).  A model is admitted only if every float activation '
+        'has non-zero range on x.  A unit is one (model, config, x); distinct by digest; non-trivial iff the model has >=2 operators and '
+        'every output is integer-typed')
 ASSUMPTIONS = ['a model whose quantized bias saturates INT32/INT64 (bias/(input_scale*weight_scale) does not fit; permitted by C05) is not judged',
-               'the bound is deliberately loose: the property is about gross failures (constant / saturated / non-finite outputs)',
-               f'K={K_STEPS:g}, alpha={ALPHA:g}/{ALPHA_W4:g} frozen from the measured distribution (12k cases: 8-bit weights all < 0.05 A with the '
-               'step term adding >= 6% of the output range; 4-bit weights reach 0.5 A through weight rounding alone); the histogram of '
-               'err/A per config class is in the evidence',
+               f'the trigger K={K_STEPS:g}, alpha={ALPHA:g} is deliberately tight (about 10 % of the cases are examined); the verdict comes from the '
+               'decomposition, whose per-kernel tolerances were measured on the unchanged tree (35 689 models: all 8-bit kernels within 0.75 '
+               'step, 16-bit linear kernels within 1.45, int16 GELU up to 556 steps) -- the LiteRT kernels are the trusted base',
+               'the histogram of err/A per config class is in the evidence',
                'cases whose structure is refuted by the C01 oracles in the same execution are attributed there']
 TT = models.TT
 STATIC = ['srq8a_cw', 'srq8a_tw', 'srq8s_cw', 'srq16_cw', 'srq16_tw', 'srq8a_w4', 'srq16_w4', 'srq8s_w4tw']
@@ -134,8 +140,8 @@ def bias_saturated(mo):
   return False
 
 
-BETA = 2.0
-PROBE_TRIALS = 6
+BETA = 4.0
+PROBE_TRIALS = 8
 
 
 def conditioning_probe(spec, sig, x, f_outs, f_tens, act_bits, weight_bits, seed_material):
@@ -147,6 +153,16 @@ def conditioning_probe(spec, sig, x, f_outs, f_tens, act_bits, weight_bits, seed
   for n, (det, v) in f_tens.items():
     if v.dtype == np.float32 and v.size:
       steps[n] = (max(float(np.max(v)), 0.0) - min(float(np.min(v)), 0.0)) / (2.0 ** act_bits - 1)
+  # outputs of SOFTMAX / LOGISTIC / TANH carry the range fixed by the runtime kernels (TFLite quantization spec), whatever
+  # their values: [0, 1) in 2^bits steps (2^15 for 16 bit), resp. [-1, 1)
+  src = models.read(spec.content)
+  sgp = src.subgraphs[sig['subgraph']]
+  fixed = {models.BO.SOFTMAX: 1.0 / 256 if act_bits == 8 else 1.0 / 32768, models.BO.LOGISTIC: 1.0 / 256 if act_bits == 8 else 1.0 / 32768,
+           models.BO.TANH: 1.0 / 128 if act_bits == 8 else 1.0 / 32768}
+  for op in sgp.operators:
+    code = src.operatorCodes[op.opcodeIndex].builtinCode
+    if code in fixed:
+      steps[sgp.tensors[int(op.outputs[0])].name.decode()] = fixed[code]
   delta = {k: 0.0 for k in f_outs}
   for trial in range(PROBE_TRIALS):
     rng = np.random.default_rng([int(seed_material) & 0x7fffffff, trial])
@@ -178,6 +194,19 @@ def evaluate(ctx, spec, src, run, sig, x, ref, weight_bits, act_bits, per_channe
       ctx.count('quantized_model_not_runnable')
       ctx.violation('interpreter_error', dict(f, phase='allocate_or_invoke', exc=type(e).__name__), dict(base, message=str(e)[-300:]))
       return
+    if os.environ.get('VERIF_C07_LOCAL_ALWAYS'):
+      # calibration / audit mode (tools/c07_local_calibration.sh): local replay of EVERY case, only recorded
+      try:
+        loc = localreplay.explain(spec.content, src, run.out, sig, f_tens, q_tens)
+        if loc.available:
+          ctx.count('audit_local_replays')
+          for key_, dev_ in loc.max_steps.items():
+            ctx.observe_max('audit_local_deviation_steps:' + key_, dev_)
+          for c in loc.culprits:
+            ctx.count('audit_culprit:%s:%s:%s:bmmcw=%s' % (c['what'], c.get('op') or c.get('tensor_of'), c.get('bits'),
+                                                          feats['bmm_const_rhs_channelwise']))
+      except Exception as e:  # pylint: disable=broad-except
+        ctx.count('audit_failed:' + type(e).__name__)
     for k, v in q_outs.items():
       d = od[k]
       ctx.count('outputs_checked')
@@ -200,8 +229,9 @@ def evaluate(ctx, spec, src, run, sig, x, ref, weight_bits, act_bits, per_channe
         ctx.observe_max(f'err_over_A:a{act_bits}w{weight_bits}', r_)
       const = bool(v.size > 1 and np.all(v == v.reshape(-1)[0]))
       spread = float(np.max(refv) - np.min(refv)) if refv.size else 0.0
-      degenerate = const and spread > max(K_STEPS * step, 0.1 * A) and len(sc) > 0
-      if err > bound and not degenerate:
+      # "never constant when the float output is not": only where the float spread exceeds what the bound itself allows
+      degenerate = const and spread > max(K_STEPS * step, 0.1 * A, bound) and len(sc) > 0
+      if err > bound or degenerate:
         # The fixed bound is exceeded: is this network simply ill-conditioned?  (e.g. a large-range tensor squashed by a fused
         # RELU6 and multiplied up again).  The float model answers that by itself.
         if 'delta' not in state:
@@ -212,9 +242,27 @@ def evaluate(ctx, spec, src, run, sig, x, ref, weight_bits, act_bits, per_channe
             state['delta'] = {}
         dlt = state['delta'].get(k)
         ctx.count('conditioning_probes')
-        if dlt is not None and err <= bound + BETA * dlt:
+        # ... and, deterministically: is every operator of the observed execution locally consistent with its float
+        # counterpart on the inputs it actually read, with parameters that fit the float ranges?  Then the deviation is
+        # rounding carried by the float network (vf/oracle/localreplay.py).
+        if 'local' not in state:
+          try:
+            state['local'] = localreplay.explain(spec.content, src, run.out, sig, f_tens, q_tens)
+          except Exception as e:  # pylint: disable=broad-except
+            state['local'] = None
+            ctx.count('local_replay_failed:' + type(e).__name__)
+        loc = state['local']
+        if loc is not None and loc.available:
+          ctx.count('local_replays')
+          for key_, dev_ in loc.max_steps.items():
+            ctx.observe_max('local_deviation_steps:' + key_, dev_)
+          if loc.explained and not degenerate:
+            ctx.count('explained_by_local_replay_not_judged')
+            continue
+        if dlt is not None and err <= bound + BETA * dlt and not (degenerate and spread > bound + BETA * dlt):
           ctx.count('ill_conditioned_float_model_not_judged')
           ctx.observe_max('probe_delta_over_A', dlt / A if A else 0.0)
+          ctx.observe_max(f'excused_err_over_extended_bound:w{weight_bits}', err / (bound + BETA * dlt))
           continue
         state['probe'] = dlt
       if err > bound or degenerate:
@@ -225,7 +273,9 @@ def evaluate(ctx, spec, src, run, sig, x, ref, weight_bits, act_bits, per_channe
                            output_equals_zero_point=bool(const and zp is not None and int(v.reshape(-1)[0]) == zp),
                            first_bad_operator=fb, bmm_output_pinned_to_zero_point=bmm_output_pinned(src, f_tens, q_tens)),
                       dict(base, output=k, err=err, bound=bound, A=A, step=step, err_steps=err / step if step else None, spread=spread,
-                           conditioning_probe_delta=state.get('probe')))
+                           conditioning_probe_delta=state.get('probe'),
+                           local_replay=(None if state.get('local') is None or not state['local'].available
+                                         else {'ops': state['local'].ops, 'culprits': state['local'].culprits[:4]})))
   from vf.run import abortinfo, driver
   info = {'recipe_label': label, 'recipe': run.recipe, 'ops': base.get('ops'), 'census': c01.int16_census(mo)}
   info['model_path'], info['feeds_path'] = abortinfo.save(os.path.join(driver.ROOT, '.work', 'risky'), run.out, {sig['key']: x})
